@@ -6,11 +6,10 @@ use crate::verif_stubs as vs;
 struct Pg([u8; PAGE_SIZE]);
 
 //@ props=C23 kind=bounded small_pages=1 bound="PAGE_SIZE scaled to 256 bytes by cfg(kahflane_turdb_verif_small_pages); every page byte, index and probe key symbolic" timeout=900
-/// InteriorNode on arbitrary page bytes: from_page returns Ok/Err; for any index slot_at / key_at, and for
-/// any probe key (<= 5 bytes) find_child, return Ok or Err and never panic, overflow, loop forever or
-/// read outside the page (binary search bounded by cell_count: u16 => <= 17 iterations)
+/// InteriorNode on arbitrary page bytes: from_page returns Ok/Err; for any index slot_at / key_at return Ok or Err and never
+/// panic, overflow or read outside the page (find_child is the separate thorough-tier obligation)
 #[kani::proof]
-#[kani::unwind(18)]
+#[kani::unwind(4)]
 #[kani::stub(eyre::capture_handler, vs::capture_handler)]
 #[kani::stub(eyre::private::new_adhoc, vs::new_adhoc)]
 #[kani::stub(eyre::private::format_err, vs::format_err)]
@@ -23,13 +22,28 @@ fn c23_interior_accessors_total() {
         let _ = node.right_child();
         let s = vs::is_ok_forget(node.slot_at(idx)).is_some();
         if let Some(k) = vs::is_ok_forget(node.key_at(idx)) { assert!(k.len() <= PAGE_SIZE); }
-        let pb: [u8; 5] = kani::any();
-        let pl: usize = kani::any();
-        kani::assume(pl <= 5);
-        let _ = vs::is_ok_forget(node.find_child(&pb[..pl]));
         kani::cover!(s);
     }
     let n: usize = kani::any();
     kani::assume(n < PAGE_SIZE);
     assert!(vs::is_ok_forget(InteriorNode::from_page(&pg.0[..n])).is_none());
+}
+
+//@ props=C23 kind=bounded small_pages=1 tier=thorough timeout=3000 bound="PAGE_SIZE scaled to 256 bytes; probe key <= 3 bytes"
+/// InteriorNode::find_child on arbitrary page bytes and any probe key: Ok or Err, terminates (binary search
+/// bounded by cell_count: u16 => <= 17 iterations), never panics or reads outside the page
+#[kani::proof]
+#[kani::unwind(18)]
+#[kani::stub(eyre::capture_handler, vs::capture_handler)]
+#[kani::stub(eyre::private::new_adhoc, vs::new_adhoc)]
+#[kani::stub(eyre::private::format_err, vs::format_err)]
+#[kani::stub(alloc::fmt::format, vs::format)]
+fn c23_interior_find_child_total() {
+    let pg = Pg(kani::any());
+    if let Some(node) = vs::is_ok_forget(InteriorNode::from_page(&pg.0[..])) {
+        let pb: [u8; 3] = kani::any();
+        let pl: usize = kani::any();
+        kani::assume(pl <= 3);
+        let _ = vs::is_ok_forget(node.find_child(&pb[..pl]));
+    }
 }
